@@ -21,13 +21,16 @@ const (
 )
 
 func (v ControlState) String() string {
-	return [...]string{"", "normally open", "normally closed", "controlled"}[v]
+	states := [...]string{"", "normally open", "normally closed", "controlled"}
+	if v < 0 || int(v) >= len(states) {
+		return ""
+	}
+
+	return states[v]
 }
 
 func (v ControlState) MarshalJSON() ([]byte, error) {
-	s := [...]string{"", "normally open", "normally closed", "controlled"}[v]
-
-	return json.Marshal(s)
+	return json.Marshal(v.String())
 }
 
 func (v *ControlState) UnmarshalJSON(b []byte) error {
